@@ -25,7 +25,7 @@ from props import brokerclient_lib as L
 THEOREMS_FRAMING = ["C06_reassembly", "C06_partial_frame", "C06_chunking_invariance", "C06_length_limit",
                     "C06_length_limit_strict_refuted", "C06_receiver_total"]
 THEOREMS_BOOT = ["C06_bootstrap_pairing", "C06_bootstrap_unknown_id", "C06_bootstrap_no_crosstalk", "C06_bootstrap_cancel_keeps_entry"]
-THEOREMS_BC = ["C06_limit_closes", "C06_outcome_cause", "C06_frame_instance_refuted", "C06_success_from_received_frame", "C06_client_chunking", "C06_client_chunking_two", "C06_rxbuf_stays_irreducible",
+THEOREMS_BC = ["C06_tail_reentrancy", "C06_limit_closes", "C06_outcome_cause", "C06_frame_instance_refuted", "C06_success_from_received_frame", "C06_client_chunking", "C06_client_chunking_two", "C06_rxbuf_stays_irreducible",
                "C06_frame_refines_spec", "C06_no_crosstalk_refinement", "C06_spec_other_ids_untouched", "C06_reachable", "C06_exactly_once", "C06_nothing_after_fired", "C06_own_response", "C06_dlog_is_make_log",
                "C06_no_crosstalk", "C06_own_frame", "C06_data_untouched"]
 WHICH = ("C06",)
@@ -178,7 +178,7 @@ def run(ck):
         "Twisted (Deferred fire-once/cancel semantics, Clock, IntNStringReceiver) is exercised by the correspondence, not verified; Deferred semantics are summarised in the model as a fire-once cell (AlreadyCalledError = OErr, proved unreachable)",
         "request payload bytes are outside the model (a request is identified by correlation id and handle); sendString/transport.write are assumed not to raise, so brokerclient.py:370-373 is not modelled; that path is exercised on the real code by one fixed probe (a str payload: entry dropped, Deferred fails once, id free, close() works), nothing more",
         "user-supplied code that raises (a retryPolicy raising inside ebConnect leaves self.connector a fired Deferred and the client never reconnects) is outside the model and not generated",
-        "user callbacks/errbacks that re-enter the client synchronously (cancel / makeRequest / disconnect / close, on success and on failure): inside the two loops that fire Deferreds (_sendQueued, close()) they are INSIDE the extended model Model/BrokerClientHook.v (IConnOk / IClose interleavings; C06_exactly_once_reentrant, C06_nothing_after_fired_reentrant) and its correspondence (tree_part, hook enumerations); in tail positions the driver inserts the call as the next event and checks equality on the real code (not proved). Where user code runs inside close()'s loop the outcome depends on the order in which close() fails the requests, which the property does not fix: such a case is compared with the model only if no tombstone existed and the implementation failed newest first (differences in the other cases are counted, not reported), and is always subject to the order-independent monitors. Endpoints whose connect() completes synchronously are checked by C10 (sync_connect_part)",
+        "user callbacks/errbacks that re-enter the client synchronously (cancel / makeRequest / disconnect / close, on success and on failure): inside the two loops that fire Deferreds (_sendQueued, close()) they are INSIDE the extended model Model/BrokerClientHook.v (IConnOk / IClose interleavings; C06_exactly_once_reentrant, C06_nothing_after_fired_reentrant) and its correspondence (tree_part, hook enumerations); in tail positions the driver inserts the call as the next event and checks equality on the real code; that this sequential history equals user code running inside handleResponse is PROVED for reply callbacks (C06_tail_reentrancy over the transcription Model/BrokerClientTail.v), and holds by Twisted's structure for cancel() / makeRequest on a closed client (no afkak statement follows the firing). Where user code runs inside close()'s loop the outcome depends on the order in which close() fails the requests, which the property does not fix: such a case is compared with the model only if no tombstone existed and the implementation failed newest first (differences in the other cases are counted, not reported), and is always subject to the order-independent monitors. Endpoints whose connect() completes synchronously are checked by C10 (sync_connect_part)",
         "the paused flag of IntNStringReceiver and the `recvd` compatibility attribute are not modelled (afkak never sets them)",
         "events the environment cannot produce (no transport / attempt / Deferred to act on) are no-ops in the model and CANNOT be applied to the implementation (there is no object to act on); the generator emits them only to exercise the model's enabledness. The one exception is a timer event with no timer armed: the driver then lets an hour of virtual time pass and requires that nothing happens. Everything physically possible is applied: cancel of an already fired Deferred, makeRequest after close(), data after loseConnection() was requested, a second close()",
         "extraction: ExtrOcamlBasic only; Z/positive/nat stay Coq datatypes; the comparison is made against the extracted runner; a sample of every part, including about 195 lines per enumerated alphabet and about 30 of the user-callback histories, is re-evaluated inside Coq by vm_compute (not the tail-position comparison, whose model traces are post-processed by the driver)",
